@@ -123,10 +123,16 @@ func (f *heldFollower) Context() context.Context     { return f.ctx }
 func (f *heldFollower) SendMsg(any) error            { return nil }
 func (f *heldFollower) RecvMsg(any) error            { return nil }
 
-type replProvider struct{ f *heldFollower }
+type replProvider struct {
+	f    *heldFollower
+	real *node // a real follower controller (replica.go)
+}
 
 func (p *replProvider) Close() error { return nil }
 func (p *replProvider) GetReplicateStream(ctx context.Context, _ string, _ string, _ int64, _ int64) (proto.OxiaLogReplication_ReplicateClient, error) {
+	if p.real != nil && p.real.fc != nil {
+		return p.real.connect(ctx), nil
+	}
 	if p.f == nil {
 		return nil, errors.New("no follower in this scenario")
 	}
@@ -149,14 +155,16 @@ func (noCommit) CommitOffset() int64 { return wal.InvalidOffset }
 // ---- the node
 
 type node struct {
-	name  string
-	dir   string
-	shard int64
-	kvf   *recFactory
-	wf    wal.Factory
-	prov  *replProvider
-	lc    server.LeaderController
-	term  int64
+	name   string
+	dir    string
+	shard  int64
+	kvf    *recFactory
+	wf     wal.Factory
+	prov   *replProvider
+	lc     server.LeaderController
+	term   int64
+	fc     server.FollowerController // while the node is a follower (replica.go)
+	bridge *bridge
 }
 
 var nodeCounter int
@@ -169,13 +177,17 @@ func tmpRoot() string {
 }
 
 // newNode creates the directories and factories; the controller is created by start().
-func newNode(shard int64) *node {
+func newNode(shard int64) *node { return newNodeOn(shard, false) }
+
+// newNodeOn: disk = the store is a Pebble directory that survives Close + re-open (a node whose controller is replaced:
+// follower -> leader); otherwise an in-memory store, which starts empty whenever it is opened.
+func newNodeOn(shard int64, disk bool) *node {
 	nodeCounter++
 	n := &node{name: fmt.Sprintf("n%d", nodeCounter), shard: shard, prov: &replProvider{}}
 	var err error
 	n.dir, err = os.MkdirTemp(tmpRoot(), "h_notif")
 	hx.Must(err)
-	f, err := kvsafe.New(&kv.FactoryOptions{InMemory: true, CacheSizeMB: 1, DataDir: filepath.Join(n.dir, "db")})
+	f, err := kvsafe.New(&kv.FactoryOptions{InMemory: !disk, CacheSizeMB: 1, DataDir: filepath.Join(n.dir, "db")})
 	hx.Must(err)
 	n.kvf = &recFactory{Factory: f}
 	n.wf = wal.NewWalFactory(&wal.FactoryOptions{BaseWalDir: filepath.Join(n.dir, "wal"), SegmentSize: 256 * 1024,
@@ -275,6 +287,7 @@ func (n *node) closeController() {
 
 func (n *node) destroy() {
 	n.closeController()
+	n.closeFollower()
 	_ = n.wf.Close()
 	_ = n.kvf.Close()
 	_ = os.RemoveAll(n.dir)
